@@ -1046,6 +1046,17 @@ namespace awkward {
     if (paramcheck != std::string("")) {
       return paramcheck;
     }
+    if (length_ < 0) {
+      return (std::string("at ") + path + std::string(" (") + classname()
+              + std::string("): ") + std::string("length < 0")
+              + FILENAME(__LINE__));
+    }
+    if (recordlookup_.get() != nullptr  &&
+        recordlookup_.get()->size() != contents_.size()) {
+      return (std::string("at ") + path + std::string(" (") + classname()
+              + std::string("): ") + std::string("len(keys) != len(contents)")
+              + FILENAME(__LINE__));
+    }
     for (int64_t i = 0;  i < numfields();  i++) {
       if (field(i).get()->length() < length_) {
         return (std::string("at ") + path + std::string(" (") + classname()
